@@ -114,7 +114,32 @@ pub fn run(ctx: &Ctx) -> Outcome {
         }
         rep.finish()
     });
+    // one HUGE call (a megabyte and three blocks: past any 512 KiB / 1 MiB "slab" threshold) through the multi-block call in
+    // every kind, on one 16-byte configuration; output and final chaining value against the reference computed in one pass
+    let huge_units: Vec<(&Cfg, &BlockModeDesc)> = units.iter().filter(|(c, _)| c.is_toy() && c.bs == 16 && c.par == 3).cloned().collect();
+    let rhuge = par_map(&huge_units, |(cfg, d)| {
+        let mut rep = Report::new(format!("{}/{}-{}/huge", cfg.name, d.mode, d.dir.s()));
+        let key = &keys(seed, cfg.key_len)[0];
+        let iv = pattern(seed, 0x1717, d.iv_len);
+        let n = (1usize << 20) / d.mbs + 3;
+        let data = pattern(seed, 0xC02E, n * d.mbs);
+        let (want, want_state) = crate::fe::family_ref(cfg, d.mode, d.dir, key, &iv, &data);
+        for k in KINDS {
+            rep.case(|| {
+                let mut obj = rec::bm(cfg, d, key, &iv);
+                let mut out = if k.in_place() { data.clone() } else { dirty(data.len()) };
+                let r = obj.many(k, &data, &mut out);
+                ensure!(r.is_ok(), format!("equal_length_call_refused/{}-{}", d.mode, d.dir.s()), "{}: a {}-byte call with equal lengths returned Err", d.ty, data.len());
+                ensure!(out == want, format!("output/{}-{}", d.mode, d.dir.s()), "{} one call of {} blocks ({}): output differs from the reference recurrence (first diff at byte {:?})", d.ty, n, k.s(), first_diff(&out, &want));
+                let st = obj.iv_state();
+                ensure!(Some(&st) == want_state.as_ref(), format!("chaining_value/{}-{}", d.mode, d.dir.s()), "{} after one call of {} blocks ({}): iv_state() is {} want {:?}", d.ty, n, k.s(), short(&st), want_state.as_ref().map(|s| short(s)));
+                Ok(())
+            });
+        }
+        rep.finish()
+    });
     let mut o = merge(reports);
+    extend(&mut o, merge(rhuge));
     o.rule = "stateless exhaustive: (mode in cbc/pcbc/ige) x direction x configuration x key x IV x data pattern x n blocks x schedule (all single-block calls, one call, every two-way split, empty calls, and the same through caller-supplied closures passed to *_with_backend) x call form; output and iv_state() compared with the reference recurrence after every call; decryptors are fed the data patterns as ciphertext".into();
     o.configs = cfgs.iter().map(|c| c.name.clone()).collect();
     o.bounds = vec![("all_sizes_sweep".into(), J::Str(if tier == Tier::Thorough && cfgs.iter().any(|c| c.sets.contains('s')) { "every block size 1..=255 (parallel width 2) with reduced length bounds".into() } else { "not in this tier".to_string() })), ("max_blocks".into(), J::Str(tier.pick("2*PAR+2", "3*PAR+3").into())), ("keys".into(), J::Int(tier.pick(1, 2))), ("ivs".into(), J::Int(3)), ("data_patterns".into(), J::Int(3))];
